@@ -173,6 +173,20 @@ func render(n *Node) string {
 			return "break"
 		}
 		return "continue"
+	case "ifchain":
+		// conditions that are host calls: a failing condition is a failing statement, whichever arm it guards
+		return "if p(" + id + ") != nil {\n" + renderList(n.Body) + "\n} else if p(" + strconv.Itoa(n.N) + ") != nil {\n" + renderList(n.Catch) + "\n} else {\n" + renderList(n.Else) + "\n}"
+	case "whilec":
+		if n.Var {
+			return "for k" + id + " = 0; p(" + id + ") != nil; k" + id + "++ {\n" + renderList(n.Body) + "\nbreak\n}"
+		}
+		return "for p(" + id + ") != nil {\n" + renderList(n.Body) + "\nbreak\n}"
+	case "callback":
+		// a script function handed to a Go function and called back from there, n.N times
+		if n.Var {
+			return "hcr(" + strconv.Itoa(n.N) + ", func(q" + id + ") {\n" + renderList(n.Body) + "\nreturn 7\n})"
+		}
+		return "hcb(" + strconv.Itoa(n.N) + ", func(q" + id + ") {\n" + renderList(n.Body) + "\n})"
 	case "module":
 		// a module body runs as part of the enclosing invocation: its deferred calls belong to that invocation
 		return "module M" + id + " {\n" + renderList(n.Body) + "\n}"
@@ -523,6 +537,39 @@ func (m *model) exec(n *Node, fr *frame) sig {
 		return sig{kind: 3 + n.N%2} // turned into an error where the invocation ends (call)
 	case "module", "switch":
 		return m.list(n.Body, fr)
+	case "ifchain":
+		// a probe returns nil unless the injected fault makes it return an error value (then the arm is taken)
+		before := m.calls
+		if s := m.host("p:" + id); s.kind != 0 {
+			return s
+		}
+		if m.faults[before+1] == "error-result" {
+			return m.list(n.Body, fr)
+		}
+		before = m.calls
+		if s := m.host("p:" + strconv.Itoa(n.N)); s.kind != 0 {
+			return s
+		}
+		if m.faults[before+1] == "error-result" {
+			return m.list(n.Catch, fr)
+		}
+		return m.list(n.Else, fr)
+	case "whilec":
+		before := m.calls
+		if s := m.host("p:" + id); s.kind != 0 {
+			return s
+		}
+		if m.faults[before+1] == "error-result" {
+			return m.list(n.Body, fr) // followed by a literal break
+		}
+		return sig{}
+	case "callback":
+		for i := 0; i < n.N; i++ {
+			if r := m.call(func(f *frame) sig { return m.list(n.Body, f) }); r.kind == 1 {
+				return r
+			}
+		}
+		return sig{}
 	case "recdefer":
 		var walk func(k int) sig
 		walk = func(k int) sig {
@@ -737,6 +784,17 @@ func (g *gen) stmt(c gctx) *Node {
 			lc.loops = append(append([]int{}, c.loops...), id)
 			lc.noBrk = false
 			return &Node{K: kind, ID: id, N: 1 + g.r.Intn(3), Body: g.stmts(lc, 3)}
+		case k == 13 && !leaf && g.r.Intn(5) == 0:
+			switch g.r.Intn(3) {
+			case 0:
+				return &Node{K: "ifchain", ID: id, N: g.id(), Body: g.stmts(inner, 2), Catch: g.stmts(inner, 2), Else: g.stmts(inner, 2)}
+			case 1:
+				lc := inner
+				lc.noBrk = true
+				return &Node{K: "whilec", ID: id, Var: g.r.Intn(2) == 0, Body: g.stmts(lc, 2)}
+			}
+			fc := gctx{depth: c.depth + 1, inFunc: true}
+			return &Node{K: "callback", ID: id, N: 1 + g.r.Intn(3), Var: g.r.Intn(2) == 0, Body: g.stmts(fc, 3)}
 		case k == 13 && !leaf && g.r.Intn(4) == 0:
 			bc := inner
 			bc.noBrk = true
@@ -876,6 +934,18 @@ func (Prop) Run(t *testing.T, c *harness.Case, verbose bool) *harness.Result {
 	e.Define("pv", func(id int64, v interface{}) interface{} {
 		return host("v:" + strconv.FormatInt(id, 10) + ":" + fmt.Sprint(v))
 	})
+	e.Define("hcb", func(n int64, f func(int64)) {
+		for i := int64(0); i < n; i++ {
+			f(i)
+		}
+	})
+	e.Define("hcr", func(n int64, f func(int64) int64) int64 {
+		var s int64
+		for i := int64(0); i < n; i++ {
+			s += f(i)
+		}
+		return s
+	})
 	var val interface{}
 	var rerr error
 	crashed := ""
@@ -987,7 +1057,7 @@ func valid(w *Work) bool {
 		for _, n := range ns {
 			fc := gctx{inFunc: true}
 			switch n.K {
-			case "func", "callrec", "funcvar", "anoncall", "defer-anon", "defer-named", "fcall":
+			case "func", "callrec", "funcvar", "anoncall", "defer-anon", "defer-named", "fcall", "callback":
 				if !chk(n.Body, fc) {
 					return false
 				}
@@ -1059,6 +1129,16 @@ func valid(w *Work) bool {
 				}
 			case "break", "continue":
 				if len(c.loops) == 0 || c.noBrk {
+					return false
+				}
+			case "ifchain":
+				if !chk(n.Body, c) || !chk(n.Catch, c) || !chk(n.Else, c) {
+					return false
+				}
+			case "whilec":
+				lc := c
+				lc.noBrk = true
+				if !chk(n.Body, lc) {
 					return false
 				}
 			case "stray":
